@@ -50,6 +50,7 @@ Ok(e) == CASE e.ev = "Table"    -> TableOk(e)
            [] e.ev = "Het"      -> HetOk(e)
            [] e.ev = "Oaat"     -> OaatOk(e)
            [] e.ev = "Wrap"     -> WrapOk(e)
+           [] e.ev = "FileKey"  -> e.v = FileKey(e.b)
            [] e.ev = "EncBig"   -> EncBigOk(e)
            [] e.ev = "HashB"    -> HashOk(e)          \* byte-level / SIMD entry points: same reference
            [] e.ev = "Reset"    -> TRUE
